@@ -5,10 +5,10 @@ From AHP Require Import Model.Base Model.Str Model.Attr Model.Dom Model.Search M
      Proofs.DomProofs Proofs.SearchProofs Proofs.IndexProofs.
 
 (* ---- what the index functions read of an element ---- *)
-Definition view := (nat * string * Attr.st)%type.
-Definition hview (h : hdr) : view := (uid h, name h, attrs h).
+Definition view := (nat * string * Attr.st * string)%type.
+Definition hview (h : hdr) : view := (uid h, name h, attrs h, indent h).
 Definition tview (t : tag) : view := hview (hd_ t).
-Definition vtag (v : view) : tag := let '(u, n, a) := v in Tag (mk_hdr u n a false None None) [].
+Definition vtag (v : view) : tag := let '(u, n, a, _) := v in Tag (mk_hdr u n a false None None) [].
 Lemma index_tag_view c t i : index_tag c t i = index_tag c (vtag (tview t)) i.
 Proof. destruct t as [h bs]. reflexivity. Qed.
 Definition index_views (c : icfg) (vs : list view) (i : idx) : idx := fold_left (fun i v => index_tag c (vtag v) i) vs i.
@@ -176,7 +176,7 @@ Proof.
 Qed.
 
 (* ---- uids of a parsed document are its document-order ranks ---- *)
-Definition vuid (v : view) : nat := fst (fst v).
+Definition vuid (v : view) : nat := fst (fst (fst v)).
 Lemma make_tag_uid u n a leaf p x : make_tag u n a leaf p = POk x -> tuid x = u.
 Proof. unfold make_tag. destruct (intake a st0) as [st [| |]]; try discriminate. intros H. inversion H; subst. reflexivity. Qed.
 Lemma pstep_next cls s t s' : pstep cls s t = POk s' ->
@@ -232,7 +232,7 @@ Qed.
 
 (* ---- the attribute mappings of a parsed document have duplicate-free keys (hypothesis GoodAttrs of C16) ---- *)
 From AHP Require Import Proofs.StrProofs Proofs.AttrProofs Proofs.ObserveProofs.
-Definition vgood (v : view) : Prop := KeysOK (snd v).
+Definition vgood (v : view) : Prop := KeysOK (snd (fst v)).
 Lemma make_tag_good u n a leaf p x : make_tag u n a leaf p = POk x -> vgood (tview x).
 Proof.
   unfold make_tag. destruct (intake a st0) as [st r] eqn:E. destruct r; try discriminate. intros H. inversion H; subst.
